@@ -94,6 +94,9 @@ const prelude = `(define-fun tdiv ((a Int) (b Int)) Int (ite (>= a 0) (div a b) 
 (assert (forall ((a Int) (b Int)) (! (= (ix a b) (+ a b)) :pattern ((ix a b)))))
 (declare-fun bytes2nat ((Seq Int)) Int)
 (declare-fun nat2bytes (Int) (Seq Int))
+(assert (forall ((n Int)) (! (=> (>= n 0) (= (bytes2nat (nat2bytes n)) n)) :pattern ((nat2bytes n)))))
+(assert (forall ((b (Seq Int))) (! (>= (bytes2nat b) 0) :pattern ((bytes2nat b)))))
+(assert (= (bytes2nat (as seq.empty (Seq Int))) 0))
 (declare-fun bcmp ((Seq Int) (Seq Int)) Int)
 (declare-fun u_and (Int Int) Int)
 (declare-fun u_or (Int Int) Int)
